@@ -26,7 +26,7 @@ Theorem C15_created_phase_carries :
     exists mem1 ph, same_spec mem1 mem0 /\ In ph (os_phases mem0) /\ ph_class ph = true /\ nm = pobj_name mem0 ph /\
       carries mem1 ph p /\ controlled_by_uid (op_owners p) (oi_uid (os_id mem0)) = true /\
       find_phase (sw_phases sw) (phase_kind mem0) (oi_ns (os_id mem0)) nm = None.
-Proof. exact relay_own_partial. Qed.
+Proof. exact created_phase_carries. Qed.
 Print Assumptions C15_created_phase_carries.
 
 (** The paused state is carried along: whenever the remote phase reconciler gets past a phase object, that
@@ -87,7 +87,8 @@ Proof. exact relay_stale_is_failure. Qed.
 Print Assumptions C15_relay_stale_is_failure.
 
 (** The ObjectSet (newly) reports Available=True only in a pass in which, for every delegated phase, the phase
-    object read in THIS pass carries Available=True with observedGeneration equal to its generation. *)
+    object read in THIS pass is controlled by this ObjectSet and carries Available=True with observedGeneration
+    equal to its generation. *)
 Theorem C15_relay_generation :
   forall force sw k ns n mem0 sw' evs r rev conds ctrlof rem fph ok cd,
     find_set (sw_sets sw) k ns n = Some mem0 -> is_active mem0 ->
@@ -96,7 +97,7 @@ Theorem C15_relay_generation :
     find_cond conds CAvailable = Some cd -> cd_status cd = STrue ->
     find_cond (os_conds mem0) CAvailable <> Some cd ->
     forall q, In q (os_phases mem0) -> ph_class q = true ->
-      exists cur, phase_read evs (pobj_name mem0 q) cur /\ avail_current cur.
+      exists cur, own_phase_read mem0 evs q cur /\ avail_current cur.
 Proof. exact relay_generation. Qed.
 Print Assumptions C15_relay_generation.
 
@@ -333,30 +334,87 @@ Theorem C15_adoption_decision :
 Proof. exact adoption_decision_through_previous. Qed.
 Print Assumptions C15_adoption_decision.
 
-(** ** The clause the faithful model refutes *)
+(** ** The relay reads the ObjectSet's own phase object *)
 
-(** "A phase with a class is realised through exactly one ObjectSetPhase that carries the phase's objects":
-    remotePhase.Reconcile takes whatever ObjectSetPhase exists under the name <objectset>-<phase> without
-    looking at its controller or content (remotePhase.Teardown does look). ObjectSet "n3" with phase "p2-p5"
-    and ObjectSet "n3-p2" with phase "p5" name the same phase object; the witness: an active pass of "n3"
-    reports Available=True for its current generation from the phase object of "n3-p2", although none of its
-    own objects exists. Replayed on the real controllers: checks/dlglib.py scenario_clash. *)
-Theorem C15_relay_own_refuted :
-  exists sw k ns n mem0 sw' evs r rev conds ctrlof rem fph cd q cur,
-    find_set (sw_sets sw) k ns n = Some mem0 /\ is_active mem0 /\
-    objectset_pass false sw k ns n = (sw', evs, r) /\
-    In (SMeta (MStatus rev conds ctrlof rem fph true)) evs /\
-    find_cond conds CAvailable = Some cd /\ cd_status cd = STrue /\ cd_gen cd = os_gen mem0 /\
-    In q (os_phases mem0) /\ ph_class q = true /\ phase_read evs (pobj_name mem0 q) cur /\
-    controlled_by_uid (op_owners cur) (oi_uid (os_id mem0)) = false /\ op_objects cur <> ph_objects q /\
-    w_store (sw_w sw') = [].
-Proof. exact relay_own_refuted. Qed.
-Print Assumptions C15_relay_own_refuted.
+(** The step: only a phase object whose controller reference names this ObjectSet is recorded in
+    status.remotePhases, pause-patched and relayed; any other object found under the name is an error that leaves
+    the world and the recorded remote phases untouched. *)
+Theorem C15_relay_own_step :
+  forall sw s ph rem sw1 e1 rem1 r,
+    remote_reconcile sw s ph rem = (sw1, e1, rem1, r) ->
+    match r with
+    | RRErr => rem1 = rem /\ Forall (fun e => match e with SPhase (PPause _ _ _) => False | _ => True end) e1
+    | RROk active failed =>
+        exists cur, phase_obj_of sw1 s ph = Some cur /\ relay cur = RROk active failed /\
+          phase_read e1 (pobj_name s ph) cur /\
+          controlled_by_uid (op_owners cur) (oi_uid (os_id s)) = true /\
+          rem1 = add_remote rem (pobj_name s ph, oi_uid (op_id cur))
+    end.
+Proof. exact relay_own_step. Qed.
+Print Assumptions C15_relay_own_step.
 
-(** What holds instead is [C15_created_phase_carries] (= relay_own_partial) together with
-    [C15_active_pass_phase_objects]: the phase object an ObjectSet creates carries its phase, under a free name,
-    and no pass changes the immutable part of an existing phase object. Missing for the full clause: the check,
-    when a phase object already exists under the name, that this ObjectSet controls it. *)
+Theorem C15_relay_foreign_is_error :
+  forall sw s ph rem cur,
+    phase_obj_of sw s ph = Some cur -> controlled_by_uid (op_owners cur) (oi_uid (os_id s)) = false ->
+    remote_reconcile sw s ph rem = (sw, [SPhase (PGet (pobj_name s ph) (Some cur))], rem, RRErr).
+Proof. exact relay_foreign_is_error. Qed.
+Print Assumptions C15_relay_foreign_is_error.
+
+(** relay_own, the full clause: in any status request of an active pass that newly reports Available=True,
+    every delegated phase was relayed from a phase object read in this pass that this ObjectSet controls and that
+    is Available for its own generation; every controllerOf entry was seen controlled by the ObjectSet itself or
+    is reported by such a phase object; every status.remotePhases entry is the stored one or names such a phase
+    object with its uid. No hypothesis on names or on who created the phase object. *)
+Theorem C15_relay_own :
+  forall force sw k ns n mem0 sw' evs r rev conds ctrlof rem fph ok cd,
+    find_set (sw_sets sw) k ns n = Some mem0 -> is_active mem0 ->
+    objectset_pass force sw k ns n = (sw', evs, r) ->
+    In (SMeta (MStatus rev conds ctrlof rem fph ok)) evs ->
+    find_cond conds CAvailable = Some cd -> cd_status cd = STrue ->
+    find_cond (os_conds mem0) CAvailable <> Some cd ->
+    (forall q, In q (delegated_phases mem0) -> exists cur, own_phase_read mem0 evs q cur /\ avail_current cur) /\
+    (forall key, In key ctrlof -> seen_controlled (sw_w sw') (as_owner mem0) key \/ reported_by_phase mem0 (os_phases mem0) evs key) /\
+    (forall x, In x rem -> In x (os_remotes mem0) \/
+       exists q cur, In q (os_phases mem0) /\ ph_class q = true /\ own_phase_read mem0 evs q cur /\ x = (pobj_name mem0 q, oi_uid (op_id cur))).
+Proof. exact relay_own. Qed.
+Print Assumptions C15_relay_own.
+
+(** For every outcome of the loop (also when a later phase fails or errors and the status is written by the error
+    path): every remote phase reference gathered comes from a phase object this ObjectSet controls. *)
+Theorem C15_relay_own_loop :
+  forall force s ow prev phs sw acc rem sw' evs rem' r,
+    reconcile_phases_m force sw s ow prev phs acc rem = (sw', evs, rem', r) ->
+    forall x, In x rem' -> In x rem \/
+      exists q cur, In q phs /\ ph_class q = true /\ own_phase_read s evs q cur /\ x = (pobj_name s q, oi_uid (op_id cur)).
+Proof. exact relay_own_loop. Qed.
+Print Assumptions C15_relay_own_loop.
+
+(** Historical (repaired by /repo commit a940846, finding F-C15): before that commit remotePhase.Reconcile took
+    whatever ObjectSetPhase existed under <objectset>-<phase>. ObjectSet "n3" with phase "p2-p5" and ObjectSet
+    "n3-p2" with phase "p5" name the same phase object; the old shape [remote_reconcile_v0] relays "available",
+    controllerOf and uid of the other ObjectSet's phase object, the repaired one answers with an error and records
+    nothing. Replay on the real controllers: checks/dlglib.py scenario_clash. *)
+Theorem C15_relay_own_v0_refuted :
+  exists sw s ph sw1 e1 rem1 active cur,
+    In s (sw_sets sw) /\ In ph (os_phases s) /\ ph_class ph = true /\
+    remote_reconcile_v0 sw s ph [] = (sw1, e1, rem1, RROk active false) /\
+    phase_read e1 (pobj_name s ph) cur /\ active = op_ctrlof cur /\ active <> [] /\
+    rem1 = [(pobj_name s ph, oi_uid (op_id cur))] /\
+    controlled_by_uid (op_owners cur) (oi_uid (os_id s)) = false /\ op_objects cur <> ph_objects ph /\
+    remote_reconcile sw s ph [] = (sw, e1, [], RRErr).
+Proof. exact relay_own_v0_refuted. Qed.
+Print Assumptions C15_relay_own_v0_refuted.
+
+(** The repair changes nothing where the phase object is absent or controlled by the ObjectSet. *)
+Theorem C15_remote_reconcile_v0_agrees :
+  forall sw s ph rem,
+    match phase_obj_of sw s ph with
+    | None => True
+    | Some cur => controlled_by_uid (op_owners cur) (oi_uid (os_id s)) = true
+    end ->
+    remote_reconcile sw s ph rem = remote_reconcile_v0 sw s ph rem.
+Proof. exact remote_reconcile_v0_agrees. Qed.
+Print Assumptions C15_remote_reconcile_v0_agrees.
 
 (** ** The hypotheses are satisfiable *)
 
